@@ -143,7 +143,11 @@ func compare(a, b *dergen.CMS, o cmpOpts) *diffs {
 	} else if a.HasCerts && !bytes.Equal(a.Certs.Of(a.B), b.Certs.Of(b.B)) {
 		d.u("%scertificates-order", p)
 	}
-	if a.HasCRLs != b.HasCRLs || (a.HasCRLs && !bytes.Equal(a.CRLs.Of(a.B), b.CRLs.Of(b.B))) {
+	// a revocation list is a signed object like a certificate: the lists
+	// themselves must come out byte for byte, whatever happens to their order
+	if al, bl := rangesOf(a.B, a.CRLList), rangesOf(b.B, b.CRLList); !multisetEqual(al, bl) {
+		d.s("%scrl", p)
+	} else if a.HasCRLs != b.HasCRLs || (a.HasCRLs && !bytes.Equal(a.CRLs.Of(a.B), b.CRLs.Of(b.B))) {
 		d.u("%scrls", p)
 	}
 	if len(a.Signers) != len(b.Signers) {
